@@ -25,6 +25,14 @@ var compLogsRemoved = Comp{"$logsRemoved", "(Array Int Bool)", false}
 var compUUIDFailed = Comp{"$uuidFailed", "Bool", false}
 var compWgWaited = Comp{"$wgWaited", "Bool", false}
 
+// ghost file system (C09): path id -> state (0 absent, 1 partial, 2 complete encoding of $fsData[path])
+var compFsState = Comp{"$fsState", "(Array Int Int)", false}
+var compFsData = Comp{"$fsData", "(Array Int Int)", false}
+var compPathOpen = Comp{"$pathOpen", "(Array Int Bool)", false}
+var compFilePath = Comp{"$filePath", "(Array Int Int)", false}
+var compEncFile = Comp{"$encFile", "(Array Int Int)", false}
+var compDecoded = Comp{"$decodedFrom", "(Array Int Int)", false}
+
 func unit(resT types.Type) *Val { return &Val{T: resT} }
 
 func (tr *FnCtx) use(name string) { tr.externUsed[name] = true }
@@ -219,6 +227,153 @@ func initExterns() {
 	sortH("sort.Slice")
 	sortH("sort.SliceStable")
 	sortH("sort.Strings")
+	fsMods := []string{"$fsState", "$fsData", "$pathOpen", "$filePath", "$encFile", "$decodedFrom", "$alloc", "$pub"}
+	unboxArg := func(tr *FnCtx, instr ssa.Instruction, i int) *Val {
+		ci, ok := instr.(ssa.CallInstruction)
+		if !ok {
+			return nil
+		}
+		args := ci.Common().Args
+		if ci.Common().IsInvoke() {
+			// invoke: Args excludes the receiver
+		}
+		if i >= len(args) {
+			return nil
+		}
+		if mi, ok := args[i].(*ssa.MakeInterface); ok {
+			return tr.val(mi.X)
+		}
+		return nil
+	}
+	externs["path.Join"] = &externH{doc: "path.Join(dir, name): uninterpreted, injective enough: pathDir(join(d,n)) == d; a name not ending in .tmp is not a temp name",
+		fn: func(tr *FnCtx, st *State, args []*Val, resT types.Type, instr ssa.Instruction, mode string) *Val {
+			tr.use("path.Join(dir,name) is a function of its arguments with directory dir; \"data.json\" is not a *.tmp name")
+			// variadic: args[0] is the slice of elements; recover the two elements syntactically
+			ci := instr.(ssa.CallInstruction)
+			elems, ok := tr.constSliceElems(ci.Common().Args[0])
+			if !ok || len(elems) != 2 {
+				return tr.freshVal(resT, "path")
+			}
+			d, n := tr.val(elems[0]).one(), tr.val(elems[1]).one()
+			p := "(uf2 23 " + d + " " + n + ")"
+			tr.assume(eq("(uf1 21 "+p+")", d))
+			if c, ok := elems[1].(*ssa.Const); ok && c.Value != nil && !strings.HasSuffix(c.Value.ExactString(), ".tmp\"") {
+				tr.assume(eq("(uf1 22 "+p+")", "0"))
+			}
+			return &Val{T: resT, A: []string{p}}
+		}}
+	externs["os.CreateTemp"] = &externH{mods: fsMods, doc: "os.CreateTemp(dir, pattern) creates a NEW file in dir (a path that had no file), opened for writing, initially partial",
+		fn: func(tr *FnCtx, st *State, args []*Val, resT types.Type, instr ssa.Instruction, mode string) *Val {
+			tr.use("os.CreateTemp creates a new, previously absent file in the given directory whose name matches the *.tmp pattern; its content is partial until completely written")
+			tup := resT.(*types.Tuple)
+			err := tr.freshVal(tup.At(1).Type(), "cterr")
+			ok := eq(err.one(), "0")
+			f := tr.newObj(st)
+			p := tr.freshConst("tmppath", "Int")
+			fsS := tr.cur(st, compFsState)
+			tr.assume(implies(ok, and(eq(sel(fsS, p), "0"), eq("(uf1 21 "+p+")", args[0].one()), eq("(uf1 22 "+p+")", "1"), not(eq(p, "0")))))
+			tr.set(st, compFsState, ite(ok, store(fsS, p, "1"), fsS))
+			tr.set(st, compPathOpen, ite(ok, store(tr.cur(st, compPathOpen), p, "true"), tr.cur(st, compPathOpen)))
+			tr.set(st, compFilePath, store(tr.cur(st, compFilePath), f, p))
+			fv := &Val{T: tup.At(0).Type(), A: []string{ite(ok, f, "0")}}
+			return tupleOf(resT, fv, err)
+		}}
+	externs["os.Open"] = &externH{mods: fsMods, doc: "os.Open(path): fails with ErrNotExist iff no file exists at path; never changes the file system",
+		fn: func(tr *FnCtx, st *State, args []*Val, resT types.Type, instr ssa.Instruction, mode string) *Val {
+			tr.use("os.Open(path) returns an error satisfying errors.Is(err, os.ErrNotExist) iff the path has no file")
+			tup := resT.(*types.Tuple)
+			err := tr.freshVal(tup.At(1).Type(), "operr")
+			f := tr.newObj(st)
+			p := args[0].one()
+			notExist := tr.globalAtoms("os.ErrNotExist", types.Universe.Lookup("error").Type())[0]
+			absent := eq(sel(tr.cur(st, compFsState), p), "0")
+			tr.assume(implies(absent, and(not(eq(err.one(), "0")), "(errIs "+err.one()+" "+notExist+")")))
+			tr.assume(implies(not(absent), not("(errIs "+err.one()+" "+notExist+")")))
+			tr.set(st, compFilePath, store(tr.cur(st, compFilePath), f, p))
+			return tupleOf(resT, &Val{T: tup.At(0).Type(), A: []string{ite(eq(err.one(), "0"), f, "0")}}, err)
+		}}
+	externs["(*os.File).Name"] = &externH{doc: "the path the file was created/opened with", fn: func(tr *FnCtx, st *State, args []*Val, resT types.Type, instr ssa.Instruction, mode string) *Val {
+		tr.use("(*os.File).Name returns the path the file was created with")
+		return &Val{T: resT, A: []string{sel(tr.cur(st, compFilePath), args[0].one())}}
+	}}
+	externs["(*os.File).Close"] = &externH{mods: fsMods, doc: "Close marks the file's path as no longer open for writing", fn: func(tr *FnCtx, st *State, args []*Val, resT types.Type, instr ssa.Instruction, mode string) *Val {
+		tr.use("(*os.File).Close closes the file (the ignored Close error is not modelled)")
+		p := sel(tr.cur(st, compFilePath), args[0].one())
+		tr.set(st, compPathOpen, store(tr.cur(st, compPathOpen), p, "false"))
+		return tr.freshVal(resT, "closeerr")
+	}}
+	externs["os.Rename"] = &externH{mods: fsMods, doc: "os.Rename(src,dst) atomically moves src over dst (same directory, POSIX rename); on error nothing changes",
+		fn: func(tr *FnCtx, st *State, args []*Val, resT types.Type, instr ssa.Instruction, mode string) *Val {
+			tr.use("os.Rename within one directory atomically replaces dst by src (POSIX rename); on error the file system is unchanged")
+			src, dst := args[0].one(), args[1].one()
+			fsS := tr.cur(st, compFsState)
+			fsD := tr.cur(st, compFsData)
+			tr.oblige(tr.Short+"/extern-pre[os.Rename.srcComplete]", "call-pre", eq(sel(fsS, src), "2"), "the file published by Rename is a complete encoding")
+			tr.oblige(tr.Short+"/extern-pre[os.Rename.srcClosed]", "call-pre", not(sel(tr.cur(st, compPathOpen), src)), "the file published by Rename has been closed")
+			tr.oblige(tr.Short+"/extern-pre[os.Rename.sameDir]", "call-pre", eq("(uf1 21 "+src+")", "(uf1 21 "+dst+")"), "source and target of Rename are in the same directory (atomic rename)")
+			err := tr.freshVal(resT, "rnerr")
+			ok := eq(err.one(), "0")
+			tr.set(st, compFsState, ite(ok, store(store(fsS, dst, sel(fsS, src)), src, "0"), fsS))
+			tr.set(st, compFsData, ite(ok, store(fsD, dst, sel(fsD, src)), fsD))
+			return err
+		}}
+	externs["(github.com/json-iterator/go.API).NewEncoder"] = &externH{mods: fsMods, doc: "NewEncoder(w) binds the encoder to the file w",
+		fn: func(tr *FnCtx, st *State, args []*Val, resT types.Type, instr ssa.Instruction, mode string) *Val {
+			tr.use("jsoniter NewEncoder/Encode write the complete encoding of the value to the bound file, or fail leaving it partial")
+			enc := tr.newObj(st)
+			if f := unboxArg(tr, instr, 0); f != nil && len(f.A) == 1 {
+				tr.set(st, compEncFile, store(tr.cur(st, compEncFile), enc, f.A[0]))
+			}
+			return &Val{T: resT, A: []string{enc}}
+		}}
+	externs["(*github.com/json-iterator/go.Encoder).Encode"] = &externH{mods: fsMods, doc: "Encode(v): on success the bound file holds the complete encoding of v; on error it stays partial",
+		fn: func(tr *FnCtx, st *State, args []*Val, resT types.Type, instr ssa.Instruction, mode string) *Val {
+			tr.use("jsoniter NewEncoder/Encode write the complete encoding of the value to the bound file, or fail leaving it partial")
+			err := tr.freshVal(resT, "encerr")
+			ok := eq(err.one(), "0")
+			f := sel(tr.cur(st, compEncFile), args[0].one())
+			p := sel(tr.cur(st, compFilePath), f)
+			data := "0"
+			if d := unboxArg(tr, instr, 1); d != nil && len(d.A) == 1 {
+				data = d.A[0]
+			}
+			fsS := tr.cur(st, compFsState)
+			fsD := tr.cur(st, compFsData)
+			tr.set(st, compFsState, ite(ok, store(fsS, p, "2"), store(fsS, p, "1")))
+			tr.set(st, compFsData, ite(ok, store(fsD, p, data), fsD))
+			return err
+		}}
+	externs["(github.com/json-iterator/go.API).NewDecoder"] = &externH{mods: fsMods, doc: "NewDecoder(r) binds the decoder to the file r",
+		fn: func(tr *FnCtx, st *State, args []*Val, resT types.Type, instr ssa.Instruction, mode string) *Val {
+			tr.use("jsoniter NewDecoder/Decode: decoding a complete encoding of d yields d (codec round trip assumed, not proved)")
+			dec := tr.newObj(st)
+			if f := unboxArg(tr, instr, 0); f != nil && len(f.A) == 1 {
+				tr.set(st, compEncFile, store(tr.cur(st, compEncFile), dec, f.A[0]))
+			}
+			return &Val{T: resT, A: []string{dec}}
+		}}
+	externs["(*github.com/json-iterator/go.Decoder).Decode"] = &externH{mods: fsMods, doc: "Decode(&v): on success v is the value whose complete encoding the file holds",
+		fn: func(tr *FnCtx, st *State, args []*Val, resT types.Type, instr ssa.Instruction, mode string) *Val {
+			tr.use("jsoniter NewDecoder/Decode: decoding a complete encoding of d yields d (codec round trip assumed, not proved)")
+			err := tr.freshVal(resT, "decerr")
+			ok := eq(err.one(), "0")
+			f := sel(tr.cur(st, compEncFile), args[0].one())
+			p := sel(tr.cur(st, compFilePath), f)
+			if d := unboxArg(tr, instr, 1); d != nil && len(d.A) == 1 && d.Loc == nil {
+				if pt, isPtr := d.T.Underlying().(*types.Pointer); isPtr {
+					for _, c := range tr.W.cellComps(pt.Elem()) {
+						old := tr.cur(st, c)
+						tr.set(st, c, store(old, d.A[0], tr.freshConst("dec", elemSort(c.Sort))))
+					}
+				}
+				dd := tr.cur(st, compDecoded)
+				tr.set(st, compDecoded, ite(and(ok, eq(sel(tr.cur(st, compFsState), p), "2")), store(dd, d.A[0], sel(tr.cur(st, compFsData), p)), dd))
+			} else {
+				tr.note("Decode into a non-first-class pointer: everything havocked")
+				tr.havocAll(st)
+			}
+			return err
+		}}
 	externs["(*sync.WaitGroup).Wait"] = &externH{mods: []string{"$wgWaited"}, doc: "WaitGroup.Wait returns when the counter is zero (ghost $wgWaited records that the wait happened)",
 		fn: func(tr *FnCtx, st *State, args []*Val, resT types.Type, instr ssa.Instruction, mode string) *Val {
 			tr.use("sync.WaitGroup: Wait returns after every Add has been matched by a Done (ghost flag $wgWaited only records the call)")
